@@ -677,3 +677,42 @@ def assembly_of_cut_blocks_accounts_like_its_leaves(k: int, s1: float, s2: float
         assert eq(asm.getNumberOfAtoms(n), sum(b.getNumberOfAtoms(n) for b in blocks)), "atoms agree between the levels"
         assert eq(asm.getNumberOfAtoms(n), atoms / units.CM2_PER_BARN)
     assert eq(asm.density() * asm.getVolume(), asm.getMass()), "mass = density x volume at the top"
+
+
+# ----------------------------------------------------------------------------- mass setters
+def mass_setters_contract(o, g, sf):
+    """setMass / addMass / removeMass / addMasses of nuclide B (held by every child) on `o`: the mass of B reads back at the same
+    level, every other nuclide's density and mass are unchanged"""
+    oldN = {m: o.getNumberDensity(m) for m in ("A", "C", "D")}
+    o.setMass("B", g)
+    assert eq(o.getMass("B"), g), "setMass: the nuclide's mass reads back"
+    o.addMass("B", 2.0 * g)
+    assert eq(o.getMass("B"), 3.0 * g), "addMass: grows by the requested grams"
+    o.removeMass("B", g)
+    assert eq(o.getMass("B"), 2.0 * g), "removeMass: shrinks by the requested grams"
+    o.addMasses({"B": g, "A": 0.0})
+    assert eq(o.getMass("B"), 3.0 * g), "addMasses: each listed nuclide grows by its grams"
+    assert eq(o.getNumberDensity("B") * o.getVolume() * wt("B") / K, 3.0 * g), "mass = density x volume"
+    for m in ("A", "C", "D"):
+        assert eq(o.getNumberDensity(m), oldN[m]), "every other nuclide is unchanged"
+
+
+@lemma(overrides=OV, stubs=ST, gen=dict(GENC, g=(0.0, 50.0)))
+def mass_setters_read_back_on_component_and_composite(k: int, a1: float, b1: float, v1: float, b2: float, c2: float, v2: float, g: float, T: float):
+    """ArmiObject.setMass / addMass / removeMass / addMasses (-> densityTools.calculateNumberDensity -> setNumberDensity) on
+    an uncut Component and on a Composite with k = 1..2 Component children."""
+    weights_positive()
+    assume(v1 > 0 and v2 > 0)
+    k = choose(k, 1, 2)
+    mass_setters_contract(settable({"A": a1, "B": b1}, v1, T), g, 1.0)
+    mass_setters_contract(composite(Composite, two_children(k, a1, b1, v1, b2, c2, v2, T)), g, 1.0)
+
+
+@lemma(overrides=OV, stubs=ST, gen=dict(GENC, g=(0.0, 50.0)))
+def mass_setters_read_back_on_a_cut_block(k: int, sf: float, a1: float, b1: float, v1: float, b2: float, c2: float, v2: float, g: float, T: float):
+    """the same on a cut Block (arbitrary symmetry factor) with k = 1..2 Component children: the block's own mass reads back.
+    (A component INSIDE a cut block does not read back: known findings F52-F56, F58.)"""
+    weights_positive()
+    assume(v1 > 0 and v2 > 0 and sf > 0)
+    k = choose(k, 1, 2)
+    mass_setters_contract(composite(CutBlock, two_children(k, a1, b1, v1, b2, c2, v2, T), sf=sf), g, sf)
